@@ -8,6 +8,9 @@ THEOREMS = ["Props.C05.c05_policy", "Props.C05.c05_override", "Props.C05.c05_val
 
 
 def run(check, tier):
+    import tie_common
+
+    tie_common.run_pyops(check, tier)
     import errors_suite as S
 
     ucases = S.gen_unit_cases(check.seed, tier)
